@@ -548,7 +548,7 @@ package server
 //@ requires s != nil && r.services != nil && s.active != nil && s.pauseController != nil && !isnil(s.middleware)
 //@ attr blocks
 //@ assigns Router.services, ServiceMap.requestServiceMap, mapsof(ServiceMap.services), Service.options, `os.File`.content
-//@ may_emit Snapshot, SetService, CheckAvail, RebuildTable, ListServices, CreateTemp, JsonEncode, JsonEncoded, FileClose, FileClosed, FsRename, FileRemove, MarshalService, FsTruncate
+//@ may_emit Snapshot, SetService, CheckAvail, RebuildTable, SyncTLS, HostLookup, ListServices, CreateTemp, JsonEncode, JsonEncoded, FileClose, FileClosed, FsRename, FileRemove, MarshalService, FsTruncate
 //@ emits Install(r, s) when err == nil
 //@ ensures[C05,C06,C09,C01,C02] conflicting_pair_rejected: err != nil ==> err == ErrorHostInUse && none(SetService) && none(RemoveService) && none(RebuildTable)
 //@ ensures[C05,C02] installed_in_one_critical_section: err == nil ==> count(SetService(_, _)) == 1 && emitted(SetService(_, s)) && count(Lock(r, lockid("server.Router.serviceLock"))) == 1 && first(Lock(r, lockid("server.Router.serviceLock")), SetService(_, _)) && first(SetService(_, _), Unlock(r, lockid("server.Router.serviceLock")))
@@ -589,7 +589,7 @@ package server
 
 //@ func (*server.Service).initialize
 //@ assigns s.certManager, s.middleware
-//@ may_emit LoadCert, ParseTemplates
+//@ may_emit LoadCert, ParseTemplates, ErrorPages
 //@ ensures[C16,C06] cert_manager_matches_tls: err == nil ==> (!isnil(s.certManager)) == s.options.TLSEnabled && !isnil(s.middleware)
 //@ ensures[C06] failure_changes_nothing: err != nil ==> s.certManager == old(s.certManager) && s.middleware == old(s.middleware)
 
@@ -606,7 +606,7 @@ package server
 //@ func server.NewService
 //@ attr returns_fresh
 //@ assigns nothing
-//@ may_emit LoadCert, ParseTemplates
+//@ may_emit LoadCert, ParseTemplates, ErrorPages
 //@ ensures[C06] validation_failure_returns_error: err != nil ==> none(NewLB) && none(NewHealthCheck)
 //@ ensures[C06,C11] built: err == nil ==> result0 != nil && fresh(result0) && result0.name == name && result0.active == nil && result0.rollout == nil && result0.rolloutController == nil && result0.pauseController != nil && fresh(result0.pauseController) && pauseInv(result0.pauseController) && result0.pauseController.State == PauseStateRunning && result0.targetOptions == targetOptions
 //@ ensures[C04] normalised_bindings: err == nil ==> len(result0.options.Hosts) > 0 && len(result0.options.PathPrefixes) > 0
@@ -614,7 +614,7 @@ package server
 
 //@ func (*server.Service).CopyWithOptions
 //@ assigns nothing
-//@ may_emit LoadCert, ParseTemplates
+//@ may_emit LoadCert, ParseTemplates, ErrorPages
 //@ ensures[C06,C07,C08,C10,C02,C11] shares_runtime_state: err == nil ==> result0 != nil && fresh(result0) && result0 != s && result0.name == s.name && result0.active == s.active && result0.rollout == s.rollout && result0.pauseController == s.pauseController && result0.rolloutController == s.rolloutController && result0.targetOptions == targetOptions
 //@ ensures[C16] cert_manager_matches_tls: err == nil ==> (!isnil(result0.certManager)) == result0.options.TLSEnabled && !isnil(result0.middleware)
 
@@ -920,8 +920,9 @@ package server
 //@ func (*server.Server).buildHandler
 //@ requires s.config != nil && s.router != nil
 //@ assigns nothing
-//@ may_emit ParseTemplates
+//@ may_emit ParseTemplates, ErrorPages
 //@ ensures[C13,C19] chain_order: typeis(result, `*RequestStartMiddleware`) && typeis(as(payload(result), `*RequestStartMiddleware`).next, `*RequestIDMiddleware`) && typeis(as(payload(as(payload(result), `*RequestStartMiddleware`).next), `*RequestIDMiddleware`).next, `*LoggingMiddleware`) && (typeis(as(payload(as(payload(as(payload(result), `*RequestStartMiddleware`).next), `*RequestIDMiddleware`).next), `*LoggingMiddleware`).next, `*ErrorPageMiddleware`) || isnil(as(payload(as(payload(as(payload(result), `*RequestStartMiddleware`).next), `*RequestIDMiddleware`).next), `*LoggingMiddleware`).next))
+//@ ensures[C15,C08] the_built_in_pages_are_the_last_resort: all(ErrorPages, $0) && count(ErrorPages(_, _)) == 1
 //@ ensures[C19] logging_ports: as(payload(as(payload(as(payload(result), `*RequestStartMiddleware`).next), `*RequestIDMiddleware`).next), `*LoggingMiddleware`).httpPort == s.config.HttpPort && as(payload(as(payload(as(payload(result), `*RequestStartMiddleware`).next), `*RequestIDMiddleware`).next), `*LoggingMiddleware`).httpsPort == s.config.HttpsPort
 
 //@ func (*server.PauseController).UnmarshalJSON
@@ -985,6 +986,8 @@ package server
 //@ requires m.services != nil && forall n string :: haskey(m.services, n) ==> m.services[n] != nil && m.services[n].name == n
 //@ assigns m.requestServiceMap, Service.options
 //@ ensures[C04,C05] table_rebuilt_from_the_services: repInv(m) && m.services == old(m.services)
+//@ ensures[C16,C02,C04] checked_tls_settings_are_resynced_after_every_rebuild: last_is(SyncTLS(m))
+//@ may_emit SyncTLS, HostLookup
 //@ emits RebuildTable(m)
 
 //@ func (*server.ServiceMap).Get
@@ -995,7 +998,7 @@ package server
 //@ func (*server.ServiceMap).Set
 //@ requires service != nil && m.services != nil && (forall n string :: haskey(m.services, n) ==> m.services[n] != nil && m.services[n].name == n)
 //@ assigns mapof(m.services), m.requestServiceMap, Service.options
-//@ may_emit RebuildTable
+//@ may_emit RebuildTable, SyncTLS, HostLookup
 //@ ensures[C05,C04] entry_replaced_by_name: haskey(m.services, service.name) && m.services[service.name] == service && forall n string :: n != service.name ==> haskey(m.services, n) == old(haskey(m.services, n)) && m.services[n] == old(m.services[n])
 //@ ensures[C04,C05] table_follows: repInv(m)
 //@ emits SetService(m, service)
@@ -1003,7 +1006,7 @@ package server
 //@ func (*server.ServiceMap).Remove
 //@ requires m.services != nil && (forall n string :: haskey(m.services, n) ==> m.services[n] != nil && m.services[n].name == n)
 //@ assigns mapof(m.services), m.requestServiceMap, Service.options
-//@ may_emit RebuildTable
+//@ may_emit RebuildTable, SyncTLS, HostLookup
 //@ ensures[C05] all_pairs_released: !haskey(m.services, name) && forall n string :: n != name ==> haskey(m.services, n) == old(haskey(m.services, n)) && m.services[n] == old(m.services[n])
 //@ ensures[C04,C05] table_follows: repInv(m)
 //@ emits RemoveService(m, name)
@@ -1017,7 +1020,7 @@ package server
 //@ func (*server.Router).findOrCreateService
 //@ requires r.services != nil
 //@ assigns nothing
-//@ may_emit LoadCert, ParseTemplates
+//@ may_emit LoadCert, ParseTemplates, ErrorPages
 //@ ensures[C06] validation_failures_create_nothing: err != nil ==> none(NewLB) && none(NewHealthCheck)
 //@ ensures[C06,C07,C08,C05] works_on_a_copy: err == nil ==> result0 != nil && fresh(result0) && result0.name == name && result0.pauseController != nil && !isnil(result0.middleware)
 
@@ -1243,7 +1246,7 @@ package server
 //@ requires r.services != nil
 //@ attr blocks
 //@ assigns Router.services, ServiceMap.requestServiceMap, mapsof(ServiceMap.services), Service.options
-//@ may_emit FsOpen, FileClose, FileClosed, JsonDecode, NewServiceMap, SetService, RebuildTable, JsonUnmarshal
+//@ may_emit FsOpen, FileClose, FileClosed, JsonDecode, NewServiceMap, SetService, RebuildTable, SyncTLS, HostLookup, JsonUnmarshal
 //@ ensures[C11,C12] unreadable_or_corrupt_state_changes_nothing: result != nil ==> none(NewServiceMap) && none(SetService) && none(Lock(r, lockid("server.Router.serviceLock")))
 //@ ensures[C11] a_missing_file_is_not_an_error: none(JsonDecode) && none(FileClose) ==> none(NewServiceMap) && none(SetService)
 //@ ensures[C11] every_saved_service_is_installed_into_a_fresh_table: result == nil && emitted(JsonDecode(_)) ==> count(NewServiceMap(_)) == 1 && first(NewServiceMap(_), SetService(_, _)) && first(Lock(r, lockid("server.Router.serviceLock")), NewServiceMap(_))
@@ -1252,9 +1255,42 @@ package server
 
 //@ func (*server.Router).RestoreLastSavedState$1
 //@ assigns Router.services, ServiceMap.requestServiceMap, mapsof(ServiceMap.services), Service.options
-//@ may_emit NewServiceMap, SetService, RebuildTable
+//@ may_emit NewServiceMap, SetService, RebuildTable, SyncTLS, HostLookup
 //@ loop 1 invariant same_list: coll == services && idx <= len(coll)
 //@ loop 1 invariant fresh_table: r.services != nil && fresh(r.services)
 //@ loop 1 invariant table_consistent: repInv(r.services)
 //@ loop 1 invariant services_ready: forall n string :: haskey(r.services.services, n) ==> r.services.services[n].active != nil && r.services.services[n].pauseController != nil && !isnil(r.services.services[n].middleware)
 //@ loop 1 invariant decoded_services_ready: forall i int :: 0 <= i && i < len(coll) ==> coll[i] != nil && coll[i].active != nil && coll[i].pauseController != nil && !isnil(coll[i].middleware)
+
+//@ func (*server.ServiceMap).syncTLSOptionsFromRootDomain
+//@ attr trusted_summary
+//@ assigns Service.options
+//@ may_emit HostLookup
+//@ emits SyncTLS(m)
+
+//@ func server.WithErrorPageMiddleware
+//@ assigns nothing
+//@ may_emit ParseTemplates
+//@ ensures[C15,C08] failure_means_no_middleware: err != nil ==> isnil(result0)
+//@ ensures[C15,C08,C13,C19] wraps_the_next_handler: err == nil ==> typeis(result0, `*ErrorPageMiddleware`) && as(payload(result0), `*ErrorPageMiddleware`).next == next && as(payload(result0), `*ErrorPageMiddleware`).root == root
+//@ emits ErrorPages(root, result0)
+
+//@ func (*server.Service).createMiddleware
+//@ assigns nothing
+//@ may_emit ParseTemplates, ErrorPages
+//@ ensures[C15,C08] custom_pages_defer_to_the_built_in_ones: all(ErrorPages, !$0) && count(ErrorPages(_, _)) <= 1 && (options.ErrorPagePath != "" ==> count(ErrorPages(_, _)) == 1)
+//@ ensures[C15,C08] unreadable_pages_are_an_error: err != nil ==> err == ErrorUnableToLoadErrorPages && isnil(result0)
+//@ ensures[C15,C08,C16,C06] a_handler_otherwise: err == nil ==> !isnil(result0)
+
+//@ func (*server.CommandHandler).Start$2
+//@ attr blocks
+//@ assigns *
+//@ may_emit *
+//@ loop 1 invariant no_connection_served_inline: none(RpcServeConn)
+//@ ensures[C17,C18] every_connection_is_served_on_its_own_goroutine: none(RpcServeConn)
+
+//@ func (*server.Server).startHTTPServers
+//@ requires s.config != nil && s.router != nil
+//@ assigns *
+//@ may_emit *
+//@ ensures[C15,C06] an_error_response_can_be_written_however_late_the_target_fails: err == nil ==> s.httpServer.WriteTimeout == 0 && s.httpsServer.WriteTimeout == 0 && s.httpServer.ReadTimeout == 0 && s.httpsServer.ReadTimeout == 0
